@@ -55,6 +55,8 @@ func runC13(c *Ctx) {
 	}
 	c.floor("sorted-before-ordered-sink", 6, "pairs, tos, r1, r2, nlEdges, nl2Edges, vals, keys")
 	equalityExtra(c)
+	dateGranularity(c, "date-granularity")
+	injectiveEncoding(c)
 }
 
 func runC14(c *Ctx) {
